@@ -616,10 +616,14 @@ func (d dateSerializer) serialize(ctx context.Context, typ sql.Type, value inter
 		return nil, fmt.Errorf("2 – expected time.Time, but got %T", convertedValue)
 	}
 
-	ymd := uint32(
-		dateValue.Year())<<9 |
-		uint32(dateValue.Month())<<5 |
-		uint32(dateValue.Day())
+	year, month, day := dateValue.Date()
+	if dateValue.Equal(gmstypes.ZeroTime) {
+		// The zero date (0000-00-00) is encoded with all parts set to zero
+		year, month, day = 0, 0, 0
+	}
+	ymd := uint32(year)<<9 |
+		uint32(month)<<5 |
+		uint32(day)
 	temp := make([]byte, 4)
 	binary.LittleEndian.PutUint32(temp, ymd)
 	data = append(data, temp[:3]...)
@@ -656,7 +660,10 @@ func (t timestampSerializer) serialize(ctx context.Context, typ sql.Type, value 
 	}
 
 	data = make([]byte, 4)
-	binary.BigEndian.PutUint32(data, uint32(timeValue.Unix()))
+	if !timeValue.Equal(gmstypes.ZeroTime) {
+		// The zero timestamp (0000-00-00 00:00:00) is encoded as zero seconds
+		binary.BigEndian.PutUint32(data, uint32(timeValue.Unix()))
+	}
 
 	// Serialize fractional seconds
 	nanos := timeValue.Nanosecond()
@@ -707,6 +714,10 @@ func (d datetimeSerializer) serialize(ctx context.Context, typ sql.Type, value i
 
 	year, month, day := timeValue.Date()
 	hour, minute, second := timeValue.Clock()
+	if timeValue.Equal(gmstypes.ZeroTime) {
+		// The zero datetime (0000-00-00 00:00:00) is encoded with all parts set to zero
+		year, month, day = 0, 0, 0
+	}
 
 	// Calculate year-month (ym), year-month-day (ymd), and hour-minute-second (hms) components
 	ym := uint64((year * 13) + int(month))
